@@ -245,6 +245,9 @@ func (hc *HostConfigOptional) MergeWith(other *HostConfigOptional) {
 	if other.DataTimeout != nil {
 		hc.DataTimeout = other.DataTimeout
 	}
+	if other.InsecureSkipVerify != nil {
+		hc.InsecureSkipVerify = other.InsecureSkipVerify
+	}
 }
 
 func (hc *HostConfigOptional) Unwrap() *HostConfig {
